@@ -411,6 +411,7 @@ EXPLANATION = (
     "points test it first, it is never reset. R3: rename only on the !has_failure branch, remove on the other. R4: no "
     "I/O-table call in the library has its status discarded or overwritten before a test (two named allow-list entries). "
     "Decides the error discipline on all paths, NOT what HDF5 does internally after a failed write.")
+TECHNIQUE = ('clang JSON AST; status-usage classification of every I/O call; CFG must-pass of failure branches before the publish decision')
 ASSUMPTIONS = ["HDF5 flushes buffered data at H5Dclose/H5Fclose and reports failure through their return value",
                "attribute/dataspace/property-list calls do no file I/O (their failure surfaces at the next flush point)",
                "clang 14 AST is faithful"]
